@@ -46,9 +46,12 @@ Proof. exact entry_roundtrip. Qed.
 Theorem C02_header_roundtrip : forall a b, wf_sd a -> build_sd a = Ok b -> parse_sd b = Ok (a, []).
 Proof. exact sd_roundtrip. Qed.
 
-(* unrepresentable counts / indexes make the entry encoder fail instead of emitting other bytes (repaired F1) *)
+(* unrepresentable counts / indexes make the entry encoder fail instead of emitting other bytes (repaired F1), and so
+   does a Subscribe / SubscribeAck value that does not fit counter (4 bits) and eventgroup id (16 bits) (repaired F19) *)
 Theorem C02_no_silent_overflow : forall e oi1 oi2 no1 no2 b,
-  e_idx e = Some (oi1, oi2, no1, no2) -> build_entry e = Ok b -> no1 < 16 /\ no2 < 16 /\ oi1 < 256 /\ oi2 < 256.
+  e_idx e = Some (oi1, oi2, no1, no2) -> build_entry e = Ok b ->
+  no1 < 16 /\ no2 < 16 /\ oi1 < 256 /\ oi2 < 256
+  /\ (sub_type (e_type e) = true -> N.land (e_val e) 4293918720 = 0).
 Proof. exact build_entry_counts. Qed.
 
 (* non-vacuity: a concrete message with shared and overlapping runs round-trips (3 shared options for 7 references) *)
